@@ -789,6 +789,53 @@ func parseLayers(j judge, tier string) []Layer {
 			},
 		})
 	}
+	// B4: groups of zeros inside the digit string (the base-10 scanner works in 19-digit groups)
+	{
+		tails := []string{"", "1", "123", "1000000000000000000", "9999999999999999999", "12345678901234567890", "10000000000000000000000000000000000001", "1000000000000000000000000000000000000"}
+		layers = append(layers, Layer{
+			Name:   "B4-zero-groups",
+			Units:  61,
+			Bounds: fmt.Sprintf("literals z zeros + tail for z = 0..60 and %d tails (empty, 1–38 digits, ending in zero groups), radix point at every position that is a multiple of 19 ± 1, at both ends and after the zeros, sign, optional exponent, bases 0 and 10, precision {0,1,19,20,38} × modes Even/ToZero/ToPositiveInf: zero groups at the front, in the middle and at the end of the 19-digit grouping", len(tails)),
+			Run: func(c *Ctx, u int) {
+				z := strings.Repeat("0", u)
+				for _, tl := range tails {
+					ds := z + tl
+					if ds == "" {
+						continue
+					}
+					pos := map[int]bool{-1: true, 0: true, len(ds): true, u: true}
+					for k := 18; k <= len(ds)+1; k += 19 {
+						for d := 0; d <= 2; d++ {
+							if k+d <= len(ds) {
+								pos[k+d] = true
+							}
+						}
+					}
+					for pt := range pos {
+						lit := ds
+						if pt >= 0 {
+							lit = ds[:pt] + "." + ds[pt:]
+						}
+						for _, sg := range []string{"", "-"} {
+							for _, ex := range []string{"", "e5", "e-19"} {
+								if c.Done() {
+									return
+								}
+								s := sg + lit + ex
+								for _, base := range []int{0, 10} {
+									for _, p := range []uint32{0, 1, 19, 20, 38} {
+										for _, m := range []uint8{ToNearestEven, ToZero, ToPositiveInf} {
+											parseCase(c, j, s, base, p, m, false)
+										}
+									}
+								}
+							}
+						}
+					}
+				}
+			},
+		})
+	}
 	if j == judgeValue {
 		// C: binary-flavoured literals
 		type bm struct {
